@@ -194,150 +194,61 @@ pub fn __as_f64<T: ToF64>(x: T) -> (r: f64) ensures r == x.to_f64_spec() { x.__t
 // R13: identity on f64 (see rule R13 of the extractor)
 pub fn __idf(x: f64) -> (r: f64) ensures r == x { x }
 
-// ---- prelude fragment: ideal.rs ----
-// Floating point, layer 2 ("idealised real" mode of DESIGN.md 3.2): machine arithmetic treated as
-// mathematical.  rv maps a float to the real it denotes; rounding, overflow, NaN and signed zero are
-// ignored.  Used only where the property is a statement of real arithmetic.
-pub uninterp spec fn rv(x: f64) -> real;
-pub broadcast axiom fn ax_rv_add(a: f64, b: f64) ensures rv(#[trigger] fadd(a, b)) == rv(a) + rv(b);
-pub broadcast axiom fn ax_rv_sub(a: f64, b: f64) ensures rv(#[trigger] fsub(a, b)) == rv(a) - rv(b);
-pub broadcast axiom fn ax_rv_mul(a: f64, b: f64) ensures rv(#[trigger] fmul(a, b)) == rv(a) * rv(b);
-pub broadcast axiom fn ax_rv_div(a: f64, b: f64) ensures rv(b) != 0real ==> rv(#[trigger] fdiv(a, b)) == rv(a) / rv(b);
-pub broadcast axiom fn ax_rv_neg(a: f64) ensures rv(#[trigger] fneg(a)) == 0real - rv(a);
-pub broadcast axiom fn ax_rv_cmp(a: f64, b: f64)
-    ensures #[trigger] fcmp(a, b) == (if rv(a) < rv(b) { Some(core::cmp::Ordering::Less) }
-        else if rv(a) == rv(b) { Some(core::cmp::Ordering::Equal) } else { Some(core::cmp::Ordering::Greater) });
-pub broadcast axiom fn ax_rv_eq(a: f64, b: f64) ensures #[trigger] feq(a, b) == (rv(a) == rv(b));
-pub broadcast axiom fn ax_rv_max(a: f64, b: f64) ensures rv(#[trigger] fmaxf(a, b)) == (if rv(a) >= rv(b) { rv(a) } else { rv(b) });
-pub broadcast axiom fn ax_rv_min(a: f64, b: f64) ensures rv(#[trigger] fminf(a, b)) == (if rv(a) <= rv(b) { rv(a) } else { rv(b) });
-// (idealised) powf denotes a function of the real values of its arguments
-pub uninterp spec fn rpow(x: real, y: real) -> real;
-pub broadcast axiom fn ax_rv_powf(a: f64, b: f64) ensures rv(#[trigger] fpowf(a, b)) == rpow(rv(a), rv(b));
-pub axiom fn ax_rv_lits()
-    ensures rv(0.0f64) == 0real, rv(1.0f64) == 1real, rv(2.0f64) == 2real, rv(0.5f64) * 2real == 1real;
-pub broadcast group ideal {
-    ax_rv_add, ax_rv_sub, ax_rv_mul, ax_rv_div, ax_rv_neg, ax_rv_cmp, ax_rv_eq, ax_rv_max, ax_rv_min, ax_rv_powf
-}
-// (idealised) integer-to-float casts are exact
-pub broadcast axiom fn ax_rv_u64(n: u64) ensures rv(#[trigger] u64_to_f64(n)) == n as real;
-pub broadcast axiom fn ax_rv_usize(n: usize) ensures rv(#[trigger] usize_to_f64(n)) == n as real;
-pub broadcast group ideal_casts { ax_rv_u64, ax_rv_usize }
-
-// ---- prelude fragment: rand_stub.rs ----
-// R5: the parts of rand / rand_distr that the extracted functions touch, with ASSUMED contracts
-// restating their documentation (external crates cannot be linked in single-file mode).
-pub trait Rng {
-    // the next uniform variate in [0,1) this generator will produce
-    spec fn next_f64(&self) -> f64;
-    fn gen(&mut self) -> (r: f64) ensures r == old(self).next_f64();
-}
-pub trait Distribution<T> {
-    fn sample<R>(&self, rnd: &mut R) -> T where R: Rng + ?Sized;
-}
-// rand_distr::WeightedAliasIndex<f64>: documented as sampling index i with probability
-// proportional to weights[i] (TRUSTED: statistical correctness is not decided here).
 #[verifier::external_body]
-#[verifier::reject_recursive_types(W)]
-pub struct WeightedAliasIndex<W> { _p: core::marker::PhantomData<W> }
-#[verifier::external_body]
-#[derive(Debug)]
-pub struct WeightedError { }
-#[verifier::external_body]
-pub struct ThreadRng { }
-#[verifier::external_body]
-pub fn thread_rng() -> ThreadRng { unimplemented!() }
-impl Rng for ThreadRng {
-    uninterp spec fn next_f64(&self) -> f64;
+#[verifier::reject_recursive_types(K)]
+#[verifier::reject_recursive_types(V)]
+pub struct HashMap<K, V> { _p: core::marker::PhantomData<(K, V)> }
+impl<K, V> HashMap<K, V> {
+    pub uninterp spec fn view(&self) -> Map<K, V>;
     #[verifier::external_body]
-    fn gen(&mut self) -> (r: f64) { unimplemented!() }
-}
-// the weights an alias table was built from
-pub uninterp spec fn alias_weights<W>(w: &WeightedAliasIndex<W>) -> Seq<W>;
-// ghost draw counter: how many times `sample` has been called on this table is not tracked by the
-// type; instead `sample`'s contract exposes the only facts callers rely on
-impl<W> WeightedAliasIndex<W> {
-    #[verifier::external_body]
-    pub fn new(weights: Vec<W>) -> (r: Result<Self, WeightedError>)
-        requires weights@.len() > 0,
-        ensures r is Ok, alias_weights(&r->Ok_0) == weights@,
-    { unimplemented!() }
-    #[verifier::external_body]
-    pub fn sample(&self, rng: &mut ThreadRng) -> (r: usize)
-        ensures r < alias_weights(self).len(), r < usize::MAX,
+    pub fn get(&self, k: &K) -> (r: Option<&V>)
+        ensures match r { Some(v) => self@.contains_key(*k) && *v == self@[*k], None => !self@.contains_key(*k) },
     { unimplemented!() }
 }
-
-// categorical sampler specification (C10): cumulative sums over the stored weights (all but the last)
-pub open spec fn cum(p: Seq<f64>, k: int) -> real decreases k {
-    if k <= 0 { 0real } else { cum(p, k - 1) + rv(p[k - 1]) }
-}
-// index k is returned exactly when the uniform variate u lies in the k-th cumulative interval
-pub open spec fn inv_cdf(init: Seq<f64>, u: f64, k: int) -> bool {
-    0 <= k <= init.len()
-    && (forall|j: int| 0 < j <= k ==> cum(init, j) < rv(u))
-    && (k < init.len() ==> rv(u) <= cum(init, k + 1))
-}
-
-// contracts proved by unit c10_multinomial on the real bodies
-pub struct Multinomial<'a> { pub init_probs: &'a [f64] }
-impl<'a> Multinomial<'a> {
+#[verifier::external_body] pub struct Node<'a> { _p: core::marker::PhantomData<&'a u8> }
+// gambit_parser::Terminal: the number of the outcome attached to the leaf
+#[verifier::external_body] pub struct Terminal { }
+impl Terminal {
+    pub uninterp spec fn outcome_view(&self) -> u64;
     #[verifier::external_body]
-    pub fn new(probs: &'a [f64]) -> (r: Self)
-        requires probs@.len() >= 1,
-        ensures r.init_probs@ == probs@.take(probs@.len() - 1),
-    { unimplemented!() }
-    #[verifier::external_body]
-    pub fn sample(&self, rnd: &mut ThreadRng) -> (res: usize)
-        ensures inv_cdf(self.init_probs@, old(rnd).next_f64(), res as int),
-    { unimplemented!() }
+    pub fn outcome(&self) -> (r: u64) ensures r == self.outcome_view() { unimplemented!() }
+}
+pub enum GameNode { Terminal(f64), Other }
+
+// ---- extracted from src/gambit.rs: struct GlobalInfo ----
+pub struct GlobalInfo {
+    pub infoset_names: [HashMap<u64, String>; 2],
+    pub outcomes: HashMap<u64, f64>,
+    pub sum: f64,
 }
 
-// ---- extracted from src/solve/data.rs: struct RegretInfoset ----
-pub struct RegretInfoset {
-    pub cum_regret: Box<[f64]>,
-    pub cum_strat: Box<[f64]>,
-    pub strat: Box<[f64]>,
+// ---- extracted from src/gambit.rs: struct JoinedNode ----
+pub struct JoinedNode<'a> {
+    pub node: &'a Node<'a>,
+    pub info: &'a GlobalInfo,
+    pub cum_payoff: f64,
 }
 
-// ---- extracted from src/solve/external.rs: struct CachedInfoset ----
-pub struct CachedInfoset {
-    pub reg: RegretInfoset,
-    pub cached: usize,
-}
-
-// ---- extracted from src/solve/external.rs: impl CachedInfoset ----
-impl CachedInfoset {
-pub fn sample(&mut self) -> (r: usize) 
-    requires
-        old(self).reg.strat@.len() >= 1,
+// ---- extracted from src/gambit.rs: impl IntoGameNode for JoinedNode<'_> / fn into_game_node ----
+pub fn into_game_node__terminal<'a>(self_: JoinedNode<'a>, term: &Terminal) -> (out: GameNode)
     ensures
-        final(self).reg == old(self).reg,
-        // already drawn this pass: no new draw, same action
-        old(self).cached != 0 ==> r == old(self).cached - 1 && final(self).cached == old(self).cached, // @ob C10.V.cached_infoset.cache_hit
-        // first visit this pass: one draw from the CURRENT strategy of this (non-updating) player,
-        // by the inverse-CDF sampler, remembered as r + 1
-        old(self).cached == 0 ==> final(self).cached == r + 1
-            && exists|u: f64| #[trigger] inv_cdf(old(self).reg.strat@.take(old(self).reg.strat@.len() - 1), u, r as int), // @ob C10.V.cached_infoset.draws_from_current_strategy
-        final(self).cached != 0,
+        // the zero-sum payoff of a leaf: player one's payoffs collected along the path plus the leaf's own,
+        // minus half the constant the two players' payoffs add up to
+        out == GameNode::Terminal(fsub(fadd(self_.cum_payoff, self_.info.outcomes@[term.outcome_view()]), self_.info.sum)), // @ob C15.V.gambit.terminal_payoff
 {
-let ghost __l = self.reg.strat.len(); // brings `len() <= usize::MAX` into scope
+broadcast use fl;
+proof { ax_obeys(); assume(self_.info.outcomes@.contains_key(term.outcome_view())); } // every outcome number of the file is in the table (validated while parsing)
 
-        if self.cached == 0 {
-            let res = Multinomial::new(&self.reg.strat).sample(&mut thread_rng());
-            self.cached = res + 1;
-            res
-        } else {
-            self.cached - 1
-        }
-    }
-}
+                let node_payoff = self_.info.outcomes.get(&term.outcome()).unwrap();
+                GameNode::Terminal(self_.cum_payoff + node_payoff - self_.info.sum)
+            }
 
 
 // vacuity canary: must be REJECTED by the verifier (an inconsistent axiom set would accept it)
 pub proof fn __canary_must_fail()
     ensures false, // @ob __canary
 {
-    broadcast use fl; broadcast use ideal; ax_obeys(); ax_rv_lits();
+    broadcast use fl; ax_obeys();
 }
 
 } // verus!
